@@ -2,6 +2,7 @@
 import common as C
 from props._runcommon import RUN_TRUSTED, RUN_ASSUMPTIONS, PropRunStream
 from run import selftest as W
+from run import witnesses2 as W2
 
 PROPERTY = "C05"
 LEAN_MODULES = ["LccModel.Props.C05", "LccModel.Props.C05Run"]
@@ -48,7 +49,7 @@ class Run(PropRunStream):
     strategies = ("fifo", "lifo", "random", "random")
     quick_cases = 330
     quick_seconds = 60
-    corpus = [witness("(control) distinct ranks")]
+    corpus = [witness("(control) distinct ranks")] + W2.CONTROLS
 
     def gen(self, rng, i):
         case = super().gen(rng, i)
